@@ -220,3 +220,13 @@ package searcher
 //@   requires s != nil && len(constituents) > 0
 //@   modifies *
 //@   ensures [compound-score-is-the-composite-scorer's-answer-for-all-constituents] lastCompositeArgBase == base(constituents) && lastCompositeArgLen == len(constituents) && (!s.options.Explain ==> rv.Score == lastComposite)
+
+// ---------------------------------------------------------------------------
+// C07: the heap variant of the disjunction (more than ten clauses) reports exhaustion only when no clause
+// has a candidate left, or fewer clauses are still alive than the minimum asked for
+// ---------------------------------------------------------------------------
+//@ func DisjunctionHeapSearcher.Next(ctx) (rv, err)
+//@   props C07
+//@   requires s != nil
+//@   modifies *
+//@   exit [exhaustion-only-when-too-few-clauses-remain] (!found && err == nil) ==> (len(s.matching) == 0 || len(s.heap) + len(s.matching) < s.min)
